@@ -212,13 +212,30 @@ def junk_cases(rng, n):
                 parts.append(rng.pick([blanks(), blanks(), b"\x14" * rng.pick([8, 16, 17, 40]), b""]) + rng.pick([b"a", b"b c", b"", "é".encode()]) + b"\n")
             parts.append(rng.pick([b"z", b"\x04\x04z", b"x" * rng.pick([100, 500, 1100])]) + b"\x1b")
             out.append(case(f, b"".join(parts), 24, 80)); continue
+        if i % 25 == 19:
+            # positions that outlive the text they pointed into: a mark remembered at a column of a line that is then
+            # shortened, used with an operator (`x); a NUL key between an operator and its motion on a long line above
+            # a short one
+            f = b"hello world, a long line here\nb\nc d\n\nlast one is longer again\n"
+            if rng.below(2):
+                ks = rng.pick([b"", b"j", b"G", b"4j"]) + rng.pick([b"$", b"$h", b"5l", b"w"]) + b"m" + rng.pick([b"a", b"b", b"z"])[:1]
+                mk = ks[-1:]
+                ks += rng.pick([b"0D", b"0dw", b"0d$", b"xxxx0D", b":s/.*//\n", b"0Cx\x1b", b"dd", b"ddk", b"0d2w"])
+                ks += rng.pick([b"d", b"y", b"c", b"g~", b">", b"\"qd", b"!", b""]) + b"`" + mk + rng.pick([b"", b"z\x1b", b"tr a-z A-Z\n"])
+                ks += rng.pick([b"", b"`" + mk + b"x", b"u", b"'" + mk])
+            else:
+                ks = rng.pick([b"$", b"$", b"10l", b"G$k", b""]) + rng.pick([b"d", b"y", b"c", b"g~", b">", b"", b"2d"]) + rng.pick([b"2", b"", b"3", b"1"]) + b"\x00" + \
+                     rng.pick([b"l", b" ", b"h", b"\x7f", b"w", b"e", b"$", b"fo", b"/b\n", b"j", b"x"]) + rng.pick([b"", b"z\x1b", b"u"])
+            out.append(case(f, ks, 24, 80)); continue
         f = gen_file(rng, long=(rng.below(10) == 0))
         m = rng.below(4)
         if m < 2: ks = junk_keys(rng, 1 + rng.below(50))
         else:
             ks = b"".join((motion(rng) if rng.below(2) else edit(rng)) for _ in range(1 + rng.below(12)))
             if m == 3:
-                cut = rng.below(len(ks) + 1); ks = ks[:cut] + junk_keys(rng, rng.below(8)) + ks[cut:]
+                cut = rng.below(len(ks) + 1)
+                while cut > 0 and cut < len(ks) and (ks[cut] & 0xC0) == 0x80: cut -= 1     # not inside a multi-byte character
+                ks = ks[:cut] + junk_keys(rng, rng.below(8)) + ks[cut:]
         rows, cols = geometry(rng)
         if rng.below(8) == 0: rows, cols = 2 + rng.below(4), 2 + rng.below(8)
         out.append(case(f, ks, rows, cols))
